@@ -19,7 +19,7 @@ Proof.
   destruct (good_meta_file swallow g u _ _ _ fs G) as [res [Hp [Ho _]]].
   rewrite Hp. cbn [obtained_variant]. unfold out_variant in Ho. split.
   - destruct (r_out res); try discriminate; injection Ho as ->; reflexivity.
-  - destruct G as [_ [_ [_ [vs [p [ps [Ev _]]]]]]]. rewrite Ev. reflexivity.
+  - destruct G as [_ [_ [_ [vs [p [ps [k [Ev _]]]]]]]]. rewrite Ev. reflexivity.
 Qed.
 
 Lemma staged_view_good swallow u (ann : dfile -> variant * N * Z) files fs :
@@ -99,3 +99,20 @@ Lemma repo_run_example :
   | _, _ => False
   end.
 Proof. vm_compute. repeat split; reflexivity. Qed.
+
+(* ... and when the index first answers 503 and 404 (fewer failures than the retry budget): same result *)
+Definition ex_u_flaky : upstream :=
+  [("d/by-hash/SHA256/ab", {| first := [{| pre_retries := 0; rbody := BError |}; {| pre_retries := 0; rbody := BMissing |}];
+                              rest := {| pre_retries := 0; rbody := BOk (Some 10%N) (Some 1700000001%Z) 10 false |} |});
+   ("pool/a.deb", {| first := []; rest := {| pre_retries := 0; rbody := BOk (Some 7%N) None 7 false |} |})].
+Lemma repo_run_flaky_example :
+  repo_run [ex_idx] ex_poolq ex_u_flaky ex_old_skel ex_old_mirror = repo_run [ex_idx] ex_poolq ex_u [] [] /\
+  good_meta ex_idx ex_u_flaky ex_v 10 1700000001.
+Proof.
+  split; [vm_compute; reflexivity|].
+  split; [reflexivity|]. split; [discriminate|]. split; [reflexivity|].
+  exists [], "d/by-hash/SHA256/ab", ["d/Packages.xz"], 2.
+  split; [reflexivity|]. split; [reflexivity|]. split; [unfold max_tries; repeat constructor|].
+  split; [right; split; reflexivity|]. split; [|reflexivity].
+  intros j Hj. destruct j as [|[|j]]; [reflexivity|reflexivity|exfalso; inversion Hj as [|? H1]; inversion H1 as [|? H2]; inversion H2].
+Qed.
